@@ -396,10 +396,16 @@ def brokerVerdicts (pre : Server) (ws : List String) (core flags : String) : Lis
       -- connection is gone but its deferred counter decrement has not run yet
       (if pre.parked.isEmpty && pre.parkedEarly.isEmpty && pre.pending.isEmpty then ["connected", "subs", "retained", "inflight"]
        else ["subs", "retained", "inflight"]).flatMap fun k =>
+        -- F15c (recorded under C15): a served connection whose session a late teardown deleted from the Clients
+        -- map is counted by the counters and missed by the count taken over the Clients map
+        let orphan := (List.range pre.objs.length).any fun i =>
+          let c := getObj pre i
+          c.isOpen && !c.inline && !c.stopped && pre.connOf.any (·.2 == i) && assocGet pre.clients c.id != some i
         match num core k, num act k with
         | some r, some a =>
           (if r < 0 then [fail "C38" "-" s!"counter {k} is negative ({r})"] else []) ++
-          (if r != a then [fail "C38" "-" s!"counter {k} reports {r}, actual {a}"] else [])
+          (if r != a then [fail "C38" (if orphan && r > a && (k == "connected" || k == "inflight") then "F15c" else "-")
+            s!"counter {k} reports {r}, actual {a}"] else [])
         | _, _ => []
     | _ => []
   let early := if ws.head? == some "bk.release" || ws.head? == some "bk.connhold" then [] else
@@ -682,6 +688,55 @@ def c25Update (st : BkState) (pre post : Server) (ws : List String) (io : ImplOu
 def renderVerdicts (vs : List String) : String :=
   if vs.isEmpty then "ok" else "; ".intercalate vs
 
+/-- C15/C14: every connection that is being served belongs to a session the broker knows: the client id of an open,
+    established connection is in the real broker's Clients map (ids of its hidden-state token). F15c (recorded): the
+    teardown of an older connection with the same client id, running late, deletes the entry of the new session. -/
+def liveKnownVerdicts (post : Server) (ws : List String) (hiddenIds : Option (List String)) (reported : List Str) :
+    List (Str × String) :=
+  match hiddenIds with
+  | none => []
+  | some ids =>
+    ((List.range post.objs.length).filter fun i =>
+      !reported.contains (getObj post i).id &&
+      let c := getObj post i
+      c.isOpen && !c.inline && !c.stopped && !c.peerGone && !post.parked.contains i && !post.parkedEarly.contains i &&
+        !(post.pending.any (·.obj == i)) && (post.connOf.any (·.2 == i)) && !ids.contains (toHex c.id)).map fun i =>
+      ((getObj post i).id, fail "C15" (if ws.head? == some "bk.release" then "F15c" else "-")
+        s!"the connection of client {toHex (getObj post i).id} is being served but the broker's Clients map does not know that client: its subscriptions outlive the session and deliver to the next client with this id")
+
+/-- (client id, filter) of every plain and shared entry of the topic index -/
+def allIndexEntries (s : Server) : List (Str × Str) :=
+  s.topics.nodes.flatMap fun n =>
+    (n.subs.map fun (c, sub) => (c, sub.filter)) ++ (n.shared.flatMap fun (_, m) => m.map fun (c, sub) => (c, sub.filter))
+
+/-- subscriptions a registered session lists (acknowledged, never unsubscribed) that the topic index does not hold:
+    nothing is delivered because of them -/
+def sessionOnlySubs (s : Server) : List (Str × Str) :=
+  let ents := allIndexEntries s
+  s.clients.flatMap fun (cid, i) =>
+    let c := getObj s i
+    if c.inline then [] else (c.subs.map (·.1)).filterMap fun f => if ents.contains (cid, f) then none else some (cid, f)
+
+/-- C03/C06: an op must not make a session and the topic index disagree. Recorded: F06c (`$share` is matched without
+    regard to case, so `$share/g/a` and `$SHARE/g/a` are one index entry but two session entries: unsubscribing one
+    spelling silences the other), F06d (UNSUBSCRIBE of `$share/<group>` — no topic filter — is not validated and
+    removes the entry of `$share/<group>/<group>`). -/
+def sessionIndexVerdicts (pre post : Server) (ws : List String) : List String :=
+  let before := sessionOnlySubs pre
+  let fresh := (sessionOnlySubs post).filter fun e => !before.contains e
+  if fresh.isEmpty then [] else
+  let unsubFilters : List Str := match ws with
+    | "bk.send" :: _ :: "UNSUBSCRIBE" :: kv => (((kvGet kv "f").getD "").splitOn ",").filterMap parseHex
+    | "bk.send" :: _ :: "SUBSCRIBE" :: kv =>   -- the other spelling takes the index entry over
+      (((kvGet kv "f").getD "").splitOn ",").filterMap fun x => parseHex ((x.splitOn ":").headD "")
+    | _ => []
+  let lower (f : Str) : Str := f.map fun b => if 65 ≤ b && b ≤ 90 then b + 32 else b
+  let slashes (f : Str) : Nat := (f.filter (· == 47)).length
+  let sig := if unsubFilters.any (fun f => isSharedFilter f && slashes f < 2) then "F06d"
+    else if fresh.any (fun (_, f) => unsubFilters.any fun u => u != f && lower u == lower f) then "F06c" else "-"
+  fresh.map fun (cid, f) =>
+    fail "C03" sig s!"after this op the session of {toHex cid} still lists the subscription {toHex f} but the topic index no longer holds it: matching publishes are silently not delivered"
+
 /-- broker op with spec verdicts -/
 def brokerOpV (st : BkState) (impl : String) (ws : List String) : Option (BkState × String × String × String) :=
   let (core, flags) := match impl.splitOn " V[" with
@@ -738,7 +793,10 @@ def brokerOpV (st : BkState) (impl : String) (ws : List String) : Option (BkStat
     let (st3, c11) := c11Update st2b st.srv st'.srv ws (parseImplOut core)
     let (st4, c25) := c25Update st3 st.srv st'.srv ws (parseImplOut core) flags
     let (st5, c11i) := c11InUpdate st4 st.srv ws (parseImplOut core) core
-    some (st5, m, renderVerdicts (brokerVerdicts st.srv ws core flags ++ c12 ++ c09 ++ c11 ++ c25 ++ c11i ++ c15end), g)
+    let lk := if ws.head? == some "bk.dump" then [] else liveKnownVerdicts st'.srv ws hiddenIds st5.unknownLive
+    let st5 := { st5 with unknownLive := st5.unknownLive ++ lk.map (·.1) }
+    let c15live := lk.map (·.2) ++ sessionIndexVerdicts st.srv st'.srv ws
+    some (st5, m, renderVerdicts (brokerVerdicts st.srv ws core flags ++ c12 ++ c09 ++ c11 ++ c25 ++ c11i ++ c15end ++ c15live), g)
   | none => none
 
 end Mochi.Driver
